@@ -1,7 +1,7 @@
 #!/opt/veriftools/pyvenv/bin/python
 """Bounded stand-in for the part of C18 / C19 that no contract reaches: the compiled extension module under CPython.
 
-usage: py_bounded.py <path to libbourse.so> <C18|C19> <seed> [n]
+usage: py_bounded.py <path to libbourse.so> <C18|C18twin|C19> <seed> [n] [replay binary]
 Loads the real extension module (built from the working tree by the caller), drives it with seeded random call sequences and
 compares what comes back with values recomputed independently in Python from get_orders() / get_trades() (C19: dictionary keys
 and series, observation arrays, history getters) and with the documented encodings and error behaviour (C18).
@@ -224,13 +224,185 @@ def check_c18(core, rng, n):
     return fails
 
 
+def _guard(f):
+    """a panic inside the extension module surfaces as pyo3's PanicException (a BaseException)"""
+    try:
+        return f(), None
+    except ValueError:
+        return 'ValueError', None
+    except OverflowError:
+        return 'OverflowError', None
+    except BaseException as e:      # noqa
+        return 'panic', type(e).__name__
+
+
+def _tup(x):
+    return [list(r) for r in x]
+
+
+def book_obs_py(ob):
+    orders = ob.get_orders()
+    return {'orders': _tup(orders), 'trades': _tup(ob.get_trades()), 'bid_ask': list(ob.bid_ask()), 'bid_vol': ob.bid_vol(), 'ask_vol': ob.ask_vol(),
+            'best_bid_vol': ob.best_bid_vol(), 'best_ask_vol': ob.best_ask_vol(), 'best_bid_vol_and_orders': list(ob.best_bid_vol_and_orders()),
+            'best_ask_vol_and_orders': list(ob.best_ask_vol_and_orders()), 'statuses': [ob.order_status(i) for i in range(len(orders))]}
+
+
+def env_obs_py(env):
+    orders = env.get_orders()
+    ints = lambda a: [int(x) for x in a]      # noqa
+    pair = lambda p: [ints(p[0]), ints(p[1])]      # noqa
+    return {'orders': _tup(orders), 'trades': _tup(env.get_trades()), 'time': env.time, 'bid_ask': list(env.bid_ask), 'bid_vol': env.bid_vol, 'ask_vol': env.ask_vol,
+            'best_bid_vol': env.best_bid_vol, 'best_ask_vol': env.best_ask_vol, 'best_bid_vol_and_orders': list(env.best_bid_vol_and_orders),
+            'best_ask_vol_and_orders': list(env.best_ask_vol_and_orders), 'trade_vol': env.trade_vol, 'statuses': [env.order_status(i) for i in range(len(orders))],
+            'prices': pair(env.get_prices()), 'volumes': pair(env.get_volumes()), 'touch_volumes': pair(env.get_touch_volumes()),
+            'touch_order_counts': pair(env.get_touch_order_counts()), 'trade_volumes': ints(env.get_trade_volumes())}
+
+
+def _norm(v):
+    """JSON round trip: tuples -> lists, bools stay bools (True = bid must not compare equal to 1)"""
+    return json.loads(json.dumps(v))
+
+
+def _same(a, b):
+    if isinstance(a, bool) != isinstance(b, bool):
+        return False
+    if isinstance(a, list) and isinstance(b, list):
+        return len(a) == len(b) and all(_same(x, y) for x, y in zip(a, b))
+    if isinstance(a, dict) and isinstance(b, dict):
+        return a.keys() == b.keys() and all(_same(a[k], b[k]) for k in a)
+    return a == b
+
+
+def gen_call(rng, kind, tick, known, extreme, narrow):
+    """one call over the non-numpy API; `known` = order records as Python sees them (for ids / current prices / volumes).
+    narrow scripts keep every bid at one price and every ask one tick above it, with occasional small crossing orders: queue position
+    within a level (and so every priority-losing or -keeping modification) becomes visible in the trades"""
+    r = rng.random()
+
+    def grid(bid=None):
+        if narrow and bid is not None:
+            cross = rng.random() < 0.3
+            return (20 if (bid != cross) else 21) * tick
+        return (20 + rng.randrange(0, 5)) * tick
+    if r < 0.5 or not known:
+        bid = rng.random() < 0.5
+        vol = rng.randrange(1, 6) if narrow else rng.randrange(1, 20)
+        c = rng.random()
+        if c < 0.12:
+            price = None
+        elif c < 0.2 and tick > 1:
+            price = grid() + 1                      # off the grid: ValueError, object unchanged
+        elif c < 0.24 and extreme:
+            price = rng.choice([0, tick, 2 * tick])  # lowest representable prices
+        else:
+            price = grid(bid)
+        if extreme and rng.random() < 0.04:
+            vol = 0
+        return ['place_order', bid, vol, rng.randrange(4), price]
+    if r < 0.62:
+        return ['cancel_order', rng.randrange(len(known))]
+    if r < 0.85:
+        live = [i for i, o in enumerate(known) if o[1] == 1]
+        i = rng.choice(live) if live and rng.random() < 0.8 else rng.randrange(len(known))
+        o = known[i]
+        c = rng.random()
+        np_ = None if c < 0.35 else (o[6] if c < 0.7 else grid(o[0]))     # None / the current price restated / another price
+        c = rng.random()
+        nv = None if c < 0.3 else (o[4] if c < 0.45 else (max(1, o[4] - rng.randrange(1, 4)) if c < 0.7 else rng.randrange(1, 25)))
+        if extreme and rng.random() < 0.08:
+            nv = 0
+        return ['modify_order', i, np_, nv]
+    if r < 0.9:
+        return ['disable_trading']
+    return ['enable_trading']
+
+
+def check_c18_twin(core, rng, n, replay_bin):
+    """The same call script on the compiled extension module and on the Rust core (replay runner `pytwin`): every return value and the
+    full observable state after every call must agree."""
+    import subprocess
+    fails = []
+    for k in range(n):
+        kind = 'book' if k % 2 == 0 else 'env'
+        tick = rng.choice([1, 2, 5])
+        extreme = (k % 4) >= 2
+        narrow = (k % 6) >= 3
+        trading0 = rng.random() < 0.85
+        script = {'kind': kind, 'tick': tick, 'start_time': rng.choice([0, 0, 7, 1000]), 'trading': trading0, 'seed': rng.randrange(2 ** 40), 'step_size': rng.choice([1000, 1000, 50, 64]), 'calls': []}
+        obj = core.OrderBook(script['start_time'], tick, trading0) if kind == 'book' else core.StepEnv(script['seed'], script['start_time'], tick, script['step_size'], trading0)
+        obs = book_obs_py if kind == 'book' else env_obs_py
+        rec = [{'ret': None, 'obs': _norm(obs(obj))}]
+        t = script['start_time']
+        dead = False
+        for j in range(rng.randrange(10, 60)):
+            if kind == 'book':
+                if j % 2 == 0:
+                    t += rng.randrange(1, 4)      # the documented usage: the clock advances between arrivals
+                    c = ['set_time', t]
+                else:
+                    c = gen_call(rng, kind, tick, rec[-1]['obs']['orders'], extreme, narrow)
+            else:
+                c = ['step'] if rng.random() < 0.22 else gen_call(rng, kind, tick, rec[-1]['obs']['orders'], extreme, narrow)
+            script['calls'].append(c)
+            ret, exc = _guard(lambda: getattr(obj, c[0])(*c[1:]))
+            if ret == 'panic':
+                rec.append({'ret': 'panic', 'obs': None})
+                dead = True
+                break
+            o, exc = _guard(lambda: obs(obj))
+            if o == 'panic':
+                rec.append({'ret': _norm(ret), 'obs': 'panic'})
+                dead = True
+                break
+            rec.append({'ret': _norm(ret), 'obs': _norm(o)})
+        if kind == 'env' and not dead:
+            script['calls'].append(['step'])
+            ret, exc = _guard(lambda: obj.step())
+            rec.append({'ret': _norm(ret), 'obs': _norm(obs(obj))})
+        d = tempfile.mkdtemp(prefix='pytwin_')
+        try:
+            sp = os.path.join(d, 'script.json')
+            json.dump(script, open(sp, 'w'))
+            p = subprocess.run([replay_bin, 'pytwin', sp], capture_output=True, text=True)
+        finally:
+            shutil.rmtree(d, ignore_errors=True)
+        if p.returncode != 0:
+            if dead:
+                continue          # the core itself aborts on this script: both sides agree that it does (not a transparency question)
+            fails.append({'what': 'the Rust core aborts on a script the Python class executes: %s' % p.stderr[-200:], 'script': script})
+            break
+        if dead:
+            fails.append({'what': 'the Python class raises a panic on call %d (%s) which the Rust core executes normally' % (len(rec) - 1, script['calls'][len(rec) - 2]), 'script': script})
+            break
+        want = json.loads(p.stdout)
+        for i, (a, b) in enumerate(zip(rec, want)):
+            if not _same(a['ret'], b['ret']):
+                fails.append({'what': 'call %d %s returns %s from Python and %s from the Rust core' % (i, script['calls'][i - 1] if i else 'constructor', a['ret'], b['ret']), 'script': script})
+                break
+            diff = [key for key in b['obs'] if not _same(a['obs'].get(key), b['obs'][key])]
+            if diff:
+                key = diff[0]
+                fails.append({'what': 'after call %d %s the Python class shows %s = %s, the Rust core driven by the same calls %s' % (i, script['calls'][i - 1] if i else 'constructor', key,
+                                      json.dumps(a['obs'].get(key))[:300], json.dumps(b['obs'][key])[:300]), 'differing_views': diff, 'script': script})
+                break
+        if fails:
+            break
+    return fails
+
+
 def main():
     so, prop, seed = sys.argv[1], sys.argv[2], int(sys.argv[3])
     n = int(sys.argv[4]) if len(sys.argv) > 4 else 40
+    replay_bin = sys.argv[5] if len(sys.argv) > 5 else None
     core, d = load(so)
     rng = random.Random(seed)
     try:
-        fails = check_c19(core, rng, n) if prop == 'C19' else check_c18(core, rng, n)
+        if prop == 'C19':
+            fails = check_c19(core, rng, n)
+        elif prop == 'C18twin':
+            fails = check_c18_twin(core, rng, n, replay_bin)
+        else:
+            fails = check_c18(core, rng, n)
     finally:
         shutil.rmtree(d, ignore_errors=True)
     print(json.dumps({'property': prop, 'sequences': n, 'failures': fails[:1]}))
